@@ -631,12 +631,14 @@ int main(int argc, char** argv)
             if (hash(gs[i]) != hash(*gs[i]))
                 viol("shared_ptr<string>:hash-is-not-the-pointee-hash", std::to_string(i));
         nitro::lang::unordered_set<std::shared_ptr<std::string>> set;
-        for (std::size_t i = 0; i < 5; i += 2)
-            set.insert(gs[i]);
+        // pointers 3 and 4 are NOT inserted although their pointees equal those of 1 and 0: keys are the pointers
+        for (std::size_t i = 0; i < 3; ++i)
+            if (!set.insert(gs[i]).second)
+                viol("unordered_set<shared_ptr<string>>:insert-of-a-new-key-refused", std::to_string(i));
         for (std::size_t i = 0; i < gs.size(); ++i)
         {
             stats["lookups"]++;
-            bool want = (i % 5) % 2 == 0;
+            bool want = (i % 5) < 3;
             if ((set.find(gs[i]) != set.end()) != want)
                 viol(std::string("unordered_set<shared_ptr<string>>") + (want ? ":inserted-key-not-found" : ":foreign-key-found"),
                      std::to_string(i));
